@@ -208,7 +208,7 @@ type VCluster struct {
 	// Concurrent: the cluster is driven by the concurrent scenarios (a report may be delivered after a
 	// truncation already removed its checkpoint)
 	Concurrent bool
-	flight   *Mutation
+	flight     *Mutation
 	// per-report verdict bookkeeping
 	Checked       int
 	Clean         int // reports for ranges the node held intact
